@@ -11,6 +11,7 @@ import VlsModel.Gen.FnFilterC04
 import VlsModel.Model.Bolt3Filter
 import VlsModel.Lemmas.FnGen
 import VlsModel.Gen.FnTxParse
+import VlsModel.Gen.FnTxBalance
 /-
 C04 — `Bolt3.estimateFeerate` (the feerate the signer infers for a second-level HTLC transaction,
 `Model/Bolt3Htlc.lean`) proved equal to the body of `estimate_feerate_per_kw` that `translate/rs2lean.py`
@@ -1336,5 +1337,225 @@ theorem C04_fn_parse_received_htlc_script_not32 (a : Bool) (rh k1 : Bytes) (i32 
       = .error (.err "mismatch") := by
   simp [Gen.FnTxParse.parse_received_htlc_script, xInstrs, xOp, xData, xNum, xEnd, bind, Except.bind, pure, Except.pure, Rs.fail, h32, hm]
 
+
+/-! ### Only the template is accepted (round 10, b2)
+
+`x*_ok_iff`: the instantiated externals succeed exactly on the instruction they expect.  `C04_fn_parse_*_only`: if the
+generated parser returns `Ok r`, the instruction list IS the instance of its BOLT-3 template (every opcode at its
+place, nothing before / between / after, `32` where the size is checked, the CSV tail exactly with anchors) and `r` the
+captured values.  With `C04_fn_parse_*` above (the instance is accepted) this characterises the accepted scripts of
+each of the six parsers of tx.rs on the generated code: a dropped / reordered / changed `expect_*` call, a changed
+opcode or a changed return tuple in the source breaks one of the two directions at the next run. -/
+set_option linter.unusedSimpArgs false
+theorem bind_ok_iff {α β} (x : Rs.M α) (f : α → Rs.M β) (r : β) :
+    (x >>= f) = .ok r ↔ ∃ a, x = .ok a ∧ f a = .ok r := by
+  cases x <;> simp [bind, Except.bind]
+theorem xOp_ok_iff (is v : It) (c : Nat) : xOp is c = .ok v ↔ is = .op c :: v := by
+  rcases is with _ | ⟨⟨c'⟩ | d | _, is⟩ <;> simp only [xOp]
+  · simp
+  · by_cases h : c = c'
+    · subst h; rw [if_pos rfl]; constructor
+      · intro e; cases e; rfl
+      · intro e; cases e; rfl
+    · rw [if_neg h]; constructor
+      · intro e; cases e
+      · intro e; cases e; exact absurd rfl h
+  · simp
+  · simp
+theorem xData_ok_iff (is s : It) (v : List Nat) : xData is = .ok (s, v) ↔ ∃ d, is = .push d :: s ∧ v = nat d := by
+  rcases is with _ | ⟨⟨c'⟩ | d | _, is⟩ <;> simp only [xData]
+  · simp
+  · simp
+  · constructor
+    · intro e; cases e; exact ⟨d, rfl, rfl⟩
+    · rintro ⟨d', e1, e2⟩; cases e1; subst e2; rfl
+  · simp
+theorem xNum_ok_iff (is s : It) (v : Int) : xNum is = .ok (s, v) ↔ ∃ i, is = i :: s ∧ expectNumber i = some v := by
+  rcases is with _ | ⟨i, is⟩ <;> simp only [xNum]
+  · simp
+  · cases h : expectNumber i with
+    | none =>
+      constructor
+      · intro e; cases e
+      · rintro ⟨j, e1, e2⟩; cases e1; rw [h] at e2; cases e2
+    | some n =>
+      constructor
+      · intro e; cases e; exact ⟨i, rfl, h⟩
+      · rintro ⟨j, e1, e2⟩; cases e1; rw [h] at e2; cases e2; rfl
+theorem xEnd_ok_iff (is v : It) : xEnd is = .ok v ↔ is = [] ∧ v = [] := by
+  cases is <;> simp [xEnd] <;> exact eq_comm
+
+theorem ite_fail_ok_iff {α} (b : Bool) (t : String) (x : Rs.M α) (r : α) :
+    (if b = true then Rs.fail t else x) = .ok r ↔ b = false ∧ x = .ok r := by
+  cases b <;> simp [Rs.fail]
+
+/-- only the template: an accepted instruction list IS the template instance, the result its captures -/
+theorem C04_fn_parse_revokeable_redeemscript_only (a : Bool) (is : List Instr) (r : List Nat × Int × List Nat)
+    (h : Gen.FnTxParse.parse_revokeable_redeemscript (ext_Script_instructions := xInstrs) (ext_Instructions_expect_op := xOp) (ext_Instructions_expect_data := xData) (ext_Instructions_expect_script_end := xEnd) (ext_Instructions_expect_number := xNum) is a = .ok r) :
+    ∃ (rk : Bytes) (i_n : Instr) (n : Int) (dk : Bytes), is = [.op 0x63, .push rk, .op 0x67, i_n, .op 0xb2, .op 0x75, .push dk, .op 0x68, .op 0xac] ∧ expectNumber i_n = some n ∧ r = (nat rk, n, nat dk) := by
+  simp only [Gen.FnTxParse.parse_revokeable_redeemscript, xInstrs, bind_ok_iff, Prod.exists, xOp_ok_iff, xData_ok_iff, xNum_ok_iff, xEnd_ok_iff, pure, Except.pure, Except.ok.injEq] at h
+  obtain ⟨_, rfl, _, _, ⟨rk, rfl, rfl⟩, _, rfl, _, _, ⟨i_n, rfl, h_n⟩, _, rfl, _, rfl, _, _, ⟨dk, rfl, rfl⟩, _, rfl, _, rfl, _, ⟨rfl, rfl⟩, rfl⟩ := h
+  exact ⟨_, _, _, _, rfl, h_n, rfl⟩
+
+/-- only the template: an accepted instruction list IS the template instance, the result its captures -/
+theorem C04_fn_parse_to_broadcaster_script_only (ci : Gen.FnTxParse.CommitmentInfo) (is : List Instr) (r : List Nat × Int × List Nat)
+    (h : Gen.FnTxParse.CommitmentInfo.parse_to_broadcaster_script (ext_Script_instructions := xInstrs) (ext_Instructions_expect_op := xOp) (ext_Instructions_expect_data := xData) (ext_Instructions_expect_script_end := xEnd) (ext_Instructions_expect_number := xNum) ci is = .ok r) :
+    ∃ (rk : Bytes) (i_n : Instr) (n : Int) (dk : Bytes), is = [.op 0x63, .push rk, .op 0x67, i_n, .op 0xb2, .op 0x75, .push dk, .op 0x68, .op 0xac] ∧ expectNumber i_n = some n ∧ r = (nat rk, n, nat dk) := by
+  simp only [Gen.FnTxParse.CommitmentInfo.parse_to_broadcaster_script, xInstrs, bind_ok_iff, Prod.exists, xOp_ok_iff, xData_ok_iff, xNum_ok_iff, xEnd_ok_iff, pure, Except.pure, Except.ok.injEq] at h
+  obtain ⟨_, rfl, _, _, ⟨rk, rfl, rfl⟩, _, rfl, _, _, ⟨i_n, rfl, h_n⟩, _, rfl, _, rfl, _, _, ⟨dk, rfl, rfl⟩, _, rfl, _, rfl, _, ⟨rfl, rfl⟩, rfl⟩ := h
+  exact ⟨_, _, _, _, rfl, h_n, rfl⟩
+
+/-- only the template: an accepted instruction list IS the template instance, the result its captures -/
+theorem C04_fn_parse_to_countersigner_delayed_script_only (ci : Gen.FnTxParse.CommitmentInfo) (is : List Instr) (r : List Nat)
+    (h : Gen.FnTxParse.CommitmentInfo.parse_to_countersigner_delayed_script (ext_Script_instructions := xInstrs) (ext_Instructions_expect_op := xOp) (ext_Instructions_expect_data := xData) (ext_Instructions_expect_script_end := xEnd) ci is = .ok r) :
+    ∃ (k : Bytes), is = [.push k, .op 0xad, .op 0x51, .op 0xb2] ∧ r = nat k := by
+  simp only [Gen.FnTxParse.CommitmentInfo.parse_to_countersigner_delayed_script, xInstrs, bind_ok_iff, Prod.exists, xOp_ok_iff, xData_ok_iff, xNum_ok_iff, xEnd_ok_iff, pure, Except.pure, Except.ok.injEq] at h
+  obtain ⟨_, _, ⟨k, rfl, rfl⟩, _, rfl, _, rfl, _, rfl, _, ⟨rfl, rfl⟩, rfl⟩ := h
+  exact ⟨_, rfl, rfl⟩
+
+/-- only the template: an accepted instruction list IS the template instance, the result its captures -/
+theorem C04_fn_parse_anchor_script_only (ci : Gen.FnTxParse.CommitmentInfo) (is : List Instr) (r : List Nat)
+    (h : Gen.FnTxParse.CommitmentInfo.parse_anchor_script (ext_Script_instructions := xInstrs) (ext_Instructions_expect_op := xOp) (ext_Instructions_expect_data := xData) (ext_Instructions_expect_script_end := xEnd) ci is = .ok r) :
+    ∃ (k : Bytes), is = [.push k, .op 0xac, .op 0x73, .op 0x64, .op 0x60, .op 0xb2, .op 0x68] ∧ r = nat k := by
+  simp only [Gen.FnTxParse.CommitmentInfo.parse_anchor_script, xInstrs, bind_ok_iff, Prod.exists, xOp_ok_iff, xData_ok_iff, xNum_ok_iff, xEnd_ok_iff, pure, Except.pure, Except.ok.injEq] at h
+  obtain ⟨_, _, ⟨k, rfl, rfl⟩, _, rfl, _, rfl, _, rfl, _, rfl, _, rfl, _, rfl, _, ⟨rfl, rfl⟩, rfl⟩ := h
+  exact ⟨_, rfl, rfl⟩
+
+/-- only the template (both channel types): an accepted instruction list IS the template instance -/
+theorem C04_fn_parse_received_htlc_script_only (a : Bool) (is : List Instr) (r : List Nat × List Nat × List Nat × List Nat × Int)
+    (h : Gen.FnTxParse.parse_received_htlc_script (ext_Script_instructions := xInstrs) (ext_Instructions_expect_op := xOp) (ext_Instructions_expect_data := xData) (ext_Instructions_expect_script_end := xEnd) (ext_Instructions_expect_number := xNum) is a = .ok r) :
+    ∃ (rh : Bytes) (k1 : Bytes) (i_32 : Instr) (ph : Bytes) (k2 : Bytes) (i_cltv : Instr) (cltv : Int), is = [.op 0x76, .op 0xa9, .push rh, .op 0x87, .op 0x63, .op 0xac, .op 0x67, .push k1, .op 0x7c, .op 0x82, i_32, .op 0x87, .op 0x63, .op 0xa9, .push ph, .op 0x88, .op 0x52, .op 0x7c, .push k2, .op 0x52, .op 0xae, .op 0x67, .op 0x75, i_cltv, .op 0xb1, .op 0x75, .op 0xac, .op 0x68] ++ csvTail a ++ [.op 0x68] ∧ expectNumber i_32 = some 32 ∧ expectNumber i_cltv = some cltv ∧ r = (nat rh, nat k1, nat ph, nat k2, cltv) := by
+  cases a
+  ·
+    simp only [Gen.FnTxParse.parse_received_htlc_script, xInstrs, bind_ok_iff, Prod.exists, xOp_ok_iff, xData_ok_iff, xNum_ok_iff, xEnd_ok_iff, ite_fail_ok_iff, pure, Except.pure, Except.ok.injEq, if_true, if_false, Bool.false_eq_true] at h
+    obtain ⟨_, rfl, _, rfl, _, _, ⟨rh, rfl, rfl⟩, _, rfl, _, rfl, _, rfl, _, rfl, _, _, ⟨k1, rfl, rfl⟩, _, rfl, _, rfl, _, v32, ⟨i_32, rfl, h_32⟩, hb, _, rfl, _, rfl, _, rfl, _, _, ⟨ph, rfl, rfl⟩, _, rfl, _, rfl, _, rfl, _, _, ⟨k2, rfl, rfl⟩, _, rfl, _, rfl, _, rfl, _, rfl, _, _, ⟨i_cltv, rfl, h_cltv⟩, _, rfl, _, rfl, _, rfl, _, rfl, _, rfl, _, rfl, _, ⟨rfl, rfl⟩, rfl⟩ := h
+    have e32 : v32 = 32 := by simpa using hb
+    subst e32
+    exact ⟨_, _, _, _, _, _, _, rfl, h_32, h_cltv, rfl⟩
+  ·
+    simp only [Gen.FnTxParse.parse_received_htlc_script, xInstrs, bind_ok_iff, Prod.exists, xOp_ok_iff, xData_ok_iff, xNum_ok_iff, xEnd_ok_iff, ite_fail_ok_iff, pure, Except.pure, Except.ok.injEq, if_true, if_false, Bool.false_eq_true] at h
+    obtain ⟨_, rfl, _, rfl, _, _, ⟨rh, rfl, rfl⟩, _, rfl, _, rfl, _, rfl, _, rfl, _, _, ⟨k1, rfl, rfl⟩, _, rfl, _, rfl, _, v32, ⟨i_32, rfl, h_32⟩, hb, _, rfl, _, rfl, _, rfl, _, _, ⟨ph, rfl, rfl⟩, _, rfl, _, rfl, _, rfl, _, _, ⟨k2, rfl, rfl⟩, _, rfl, _, rfl, _, rfl, _, rfl, _, _, ⟨i_cltv, rfl, h_cltv⟩, _, rfl, _, rfl, _, rfl, _, rfl, _, rfl, _, rfl, _, rfl, _, rfl, _, rfl, _, ⟨rfl, rfl⟩, rfl⟩ := h
+    have e32 : v32 = 32 := by simpa using hb
+    subst e32
+    exact ⟨_, _, _, _, _, _, _, rfl, h_32, h_cltv, rfl⟩
+
+/-- only the template (both channel types): an accepted instruction list IS the template instance -/
+theorem C04_fn_parse_offered_htlc_script_only (a : Bool) (is : List Instr) (r : List Nat × List Nat × List Nat × List Nat)
+    (h : Gen.FnTxParse.parse_offered_htlc_script (ext_Script_instructions := xInstrs) (ext_Instructions_expect_op := xOp) (ext_Instructions_expect_data := xData) (ext_Instructions_expect_script_end := xEnd) (ext_Instructions_expect_number := xNum) is a = .ok r) :
+    ∃ (rh : Bytes) (k1 : Bytes) (i_32 : Instr) (k2 : Bytes) (ph : Bytes), is = [.op 0x76, .op 0xa9, .push rh, .op 0x87, .op 0x63, .op 0xac, .op 0x67, .push k1, .op 0x7c, .op 0x82, i_32, .op 0x87, .op 0x64, .op 0x75, .op 0x52, .op 0x7c, .push k2, .op 0x52, .op 0xae, .op 0x67, .op 0xa9, .push ph, .op 0x88, .op 0xac, .op 0x68] ++ csvTail a ++ [.op 0x68] ∧ expectNumber i_32 = some 32 ∧ r = (nat rh, nat k1, nat k2, nat ph) := by
+  cases a
+  ·
+    simp only [Gen.FnTxParse.parse_offered_htlc_script, xInstrs, bind_ok_iff, Prod.exists, xOp_ok_iff, xData_ok_iff, xNum_ok_iff, xEnd_ok_iff, ite_fail_ok_iff, pure, Except.pure, Except.ok.injEq, if_true, if_false, Bool.false_eq_true] at h
+    obtain ⟨_, rfl, _, rfl, _, _, ⟨rh, rfl, rfl⟩, _, rfl, _, rfl, _, rfl, _, rfl, _, _, ⟨k1, rfl, rfl⟩, _, rfl, _, rfl, _, v32, ⟨i_32, rfl, h_32⟩, hb, _, rfl, _, rfl, _, rfl, _, rfl, _, rfl, _, _, ⟨k2, rfl, rfl⟩, _, rfl, _, rfl, _, rfl, _, rfl, _, _, ⟨ph, rfl, rfl⟩, _, rfl, _, rfl, _, rfl, _, rfl, _, rfl, _, ⟨rfl, rfl⟩, rfl⟩ := h
+    have e32 : v32 = 32 := by simpa using hb
+    subst e32
+    exact ⟨_, _, _, _, _, rfl, h_32, rfl⟩
+  ·
+    simp only [Gen.FnTxParse.parse_offered_htlc_script, xInstrs, bind_ok_iff, Prod.exists, xOp_ok_iff, xData_ok_iff, xNum_ok_iff, xEnd_ok_iff, ite_fail_ok_iff, pure, Except.pure, Except.ok.injEq, if_true, if_false, Bool.false_eq_true] at h
+    obtain ⟨_, rfl, _, rfl, _, _, ⟨rh, rfl, rfl⟩, _, rfl, _, rfl, _, rfl, _, rfl, _, _, ⟨k1, rfl, rfl⟩, _, rfl, _, rfl, _, v32, ⟨i_32, rfl, h_32⟩, hb, _, rfl, _, rfl, _, rfl, _, rfl, _, rfl, _, _, ⟨k2, rfl, rfl⟩, _, rfl, _, rfl, _, rfl, _, rfl, _, _, ⟨ph, rfl, rfl⟩, _, rfl, _, rfl, _, rfl, _, rfl, _, rfl, _, rfl, _, rfl, _, rfl, _, ⟨rfl, rfl⟩, rfl⟩ := h
+    have e32 : v32 = 32 := by simpa using hb
+    subst e32
+    exact ⟨_, _, _, _, _, rfl, h_32, rfl⟩
+
+
+
+/-! ## Round 10 (b2): `CommitmentInfo2::claimable_balance` (tx.rs) translated (`Gen/FnTxBalance.lean`,
+`fn_targets/TxBalance.b2.json`; the generic `T: PreimageMap` is an opaque type with the declared external
+`T.has_preimage`) — both signing phases call it on the decoded / built commitment before validation. -/
+set_option linter.unusedSimpArgs false
+open Gen.FnTxBalance in
+/-- `claimable_balance` (called by both signing phases BEFORE validation): for an outbound channel, a commitment whose
+    outputs sum above the channel value is not refused but **panics** (`expect("channel_value should be >= total_value")`)
+    — the observation recorded in notes/C04.md, now a theorem about the generated body. -/
+theorem C04_fn_claimable_balance_panics_above_channel_value {PH T : Type} (hp : T → PH → Bool)
+    (ci : CommitmentInfo2 PH) (pm : T) (cv tv : Nat)
+    (ht : ci.total_value = .ok tv) (hlt : cv < tv) :
+    ci.claimable_balance hp pm true cv = .error .panic := by
+  simp [CommitmentInfo2.claimable_balance, ht, Rs.ucheckedSub, Rs.unwrap, bind, Except.bind, Rs.panic, Nat.not_le.mpr hlt]
+
+open Gen.FnTxBalance in
+/-- … and the sum overflowing `u64` is an overflow panic of `total_value` itself (debug build) -/
+theorem C04_fn_claimable_balance_total_overflow {PH T : Type} (hp : T → PH → Bool)
+    (ci : CommitmentInfo2 PH) (pm : T) (cv : Nat) (e : Rs.Fail)
+    (ht : ci.total_value = .error e) :
+    ci.claimable_balance hp pm true cv = .error e := by
+  simp [CommitmentInfo2.claimable_balance, ht, bind, Except.bind]
+
+open Gen.FnTxBalance in
+/-- inbound channel, no HTLCs: the holder's main output (which side it is depends on the broadcaster) -/
+theorem C04_fn_claimable_balance_no_htlcs {PH T : Type} (hp : T → PH → Bool) (pm : T) (cb : Bool) (a b cv : Nat) :
+    (CommitmentInfo2.mk cb a b [] [] : CommitmentInfo2 PH).claimable_balance hp pm false cv
+      = .ok (if cb then a else b) := by
+  cases cb <;> simp [CommitmentInfo2.claimable_balance, CommitmentInfo2.value_to_parties, bind, Except.bind, pure, Except.pure]
+
+open Gen.FnTxBalance in
+/-- outbound channel, no HTLCs, outputs within the channel value: main output + the fee (`channel_value - total`) -/
+theorem C04_fn_claimable_balance_outbound_no_htlcs {PH T : Type} (hp : T → PH → Bool) (pm : T) (cb : Bool) (a b cv : Nat)
+    (hab : a + b ≤ cv) (hcv : cv ≤ Rs.U64_MAX) :
+    (CommitmentInfo2.mk cb a b [] [] : CommitmentInfo2 PH).claimable_balance hp pm true cv
+      = .ok ((if cb then a else b) + (cv - (b + a))) := by
+  have h1 : b + a ≤ Rs.U64_MAX := by omega
+  have h2 : b + a ≤ cv := by omega
+  cases cb <;>
+    simp [CommitmentInfo2.claimable_balance, CommitmentInfo2.value_to_parties, CommitmentInfo2.total_value, Rs.uadd, Rs.usum,
+      Rs.ucheckedSub, Rs.ucheckedAdd, Rs.unwrap, bind, Except.bind, pure, Except.pure, h1, h2]
+  · have h3 : b + (cv - (b + a)) ≤ Rs.U64_MAX := by omega
+    simp [h3]
+  · have h3 : a + (cv - (b + a)) ≤ Rs.U64_MAX := by omega
+    simp [h3]
+
+/-- the value `claimable_balance` adds for a list of HTLCs selected by `sel` -/
+def selSum {PH : Type} (sel : PH → Bool) (l : List (Gen.FnTxBalance.HTLCInfo2 PH)) : Nat :=
+  ((l.filter (fun h => sel h.payment_hash)).map (·.value_sat)).sum
+
+theorem foldl_sel {PH : Type} (sel : PH → Bool) (f : Nat → Gen.FnTxBalance.HTLCInfo2 PH → Rs.M Nat)
+    (hf : ∀ b o, f b o = if sel o.payment_hash then (if b + o.value_sat ≤ Rs.U64_MAX then .ok (b + o.value_sat) else .error .panic) else .ok b)
+    (l : List (Gen.FnTxBalance.HTLCInfo2 PH)) (bal : Nat)
+    (h : bal + selSum sel l ≤ Rs.U64_MAX) :
+    List.foldlM f bal l = .ok (bal + selSum sel l) := by
+  induction l generalizing bal with
+  | nil => simp [selSum, pure, Except.pure]
+  | cons x xs ih =>
+    simp only [List.foldlM_cons, hf]
+    by_cases hs : sel x.payment_hash
+    · have e : selSum sel (x :: xs) = x.value_sat + selSum sel xs := by simp [selSum, hs]
+      rw [e] at h ⊢
+      have h1 : bal + x.value_sat ≤ Rs.U64_MAX := by omega
+      simp only [hs, if_true, h1, bind, Except.bind]
+      rw [ih (bal + x.value_sat) (by omega)]; congr 1; omega
+    · have e : selSum sel (x :: xs) = selSum sel xs := by simp [selSum, hs]
+      rw [e] at h ⊢
+      simp only [hs, bind, Except.bind]
+      exact ih bal h
+
+open Gen.FnTxBalance in
+/-- **closed form** (inbound channel, the case of a counterparty-funded channel): the holder's main output + the HTLCs the
+    holder offers whose preimage is unknown + the HTLCs offered to the holder whose preimage is known; which list is
+    "offered by the holder" flips with the broadcaster.  No panic as long as the sum fits `u64`. -/
+theorem C04_fn_claimable_balance {PH T : Type} (hp : T → PH → Bool) (ci : CommitmentInfo2 PH) (pm : T) (cv : Nat)
+    (hfit : ci.value_to_parties.1
+      + selSum (fun h => !hp pm h) (if ci.is_counterparty_broadcaster then ci.received_htlcs else ci.offered_htlcs)
+      + selSum (fun h => hp pm h) (if ci.is_counterparty_broadcaster then ci.offered_htlcs else ci.received_htlcs) ≤ Rs.U64_MAX) :
+    ci.claimable_balance hp pm false cv = .ok (ci.value_to_parties.1
+      + selSum (fun h => !hp pm h) (if ci.is_counterparty_broadcaster then ci.received_htlcs else ci.offered_htlcs)
+      + selSum (fun h => hp pm h) (if ci.is_counterparty_broadcaster then ci.offered_htlcs else ci.received_htlcs)) := by
+  unfold CommitmentInfo2.claimable_balance
+  cases hb : ci.is_counterparty_broadcaster <;> simp only [hb, if_true, if_false, Bool.false_eq_true] at hfit ⊢
+  all_goals
+    simp only [Rs.pure_eq, Rs.bind_ok]
+    rw [foldl_sel (fun h => !hp pm h) _ (by
+      intro b o; by_cases hle : b + o.value_sat ≤ Rs.U64_MAX <;> cases hh : hp pm o.payment_hash <;>
+        simp [hh, hle, Rs.ucheckedAdd, Rs.unwrap, Rs.panic, bind, Except.bind, pure, Except.pure]) _ ci.value_to_parties.1 (by omega)]
+    simp only [Rs.pure_eq, Rs.bind_ok]
+    rw [foldl_sel (fun h => hp pm h) _ (by
+      intro b o; by_cases hle : b + o.value_sat ≤ Rs.U64_MAX <;> cases hh : hp pm o.payment_hash <;>
+        simp [hh, hle, Rs.ucheckedAdd, Rs.unwrap, Rs.panic, bind, Except.bind, pure, Except.pure]) _ _ hfit]
+
+/-- non-vacuity: holder main output 200, offers 10 (preimage 1 known) and 20 (unknown), is offered 5 (known) and 7 (unknown) -/
+example : (Gen.FnTxBalance.CommitmentInfo2.mk false 100 200 [⟨10, 1⟩, ⟨20, 2⟩] [⟨5, 1⟩, ⟨7, 3⟩] :
+      Gen.FnTxBalance.CommitmentInfo2 Nat).claimable_balance (fun (_ : Unit) h => h == 1) () false 1000 = .ok 225 := by rfl
+/-- … and the same outputs on an outbound channel of 300 sat (< 342 = total): panic -/
+example : (Gen.FnTxBalance.CommitmentInfo2.mk false 100 200 [⟨10, 1⟩, ⟨20, 2⟩] [⟨5, 1⟩, ⟨7, 3⟩] :
+      Gen.FnTxBalance.CommitmentInfo2 Nat).claimable_balance (fun (_ : Unit) h => h == 1) () true 300 = .error .panic := by rfl
 
 end VlsModel.Props.C04Fn
